@@ -2,6 +2,7 @@ package main
 
 import (
 	"fmt"
+	"go/token"
 	"strings"
 
 	"golang.org/x/tools/go/ssa"
@@ -19,9 +20,13 @@ func init() {
 			"infIndexForHF(CurrHF)); IsLastHop / IsPenultimateHop compare CurrHF with NumHops-1 / NumHops-2; " +
 			"(P1) IncPath fails on an empty path and at the last hop, otherwise sets CurrHF+1 and CurrINF = " +
 			"infIndexForHF(new CurrHF); (D1) Base.DecodeFromBytes succeeds only if the meta header decodes, " +
-			"NumHops <= MaxHops (64), and no segment length is zero below a non-zero one (contiguity, checked " +
-			"for every index from 2 down to 0); NumINF is the index of the highest non-zero length + 1 and " +
-			"NumHops the sum of exactly the three lengths. NOT decided: that reversing twice restores the path, " +
+			"NumHops <= MaxHops (64), and no segment length is zero below a non-zero one; NumINF is the index " +
+			"of the highest non-zero length + 1 and NumHops the sum of the three lengths. D1 is decided " +
+			"independently of the loop's form: a dependence check shows that the function uses the lengths only " +
+			"in zero tests and in the sum compared with MaxHops, and an abstract evaluation (constant " +
+			"propagation unrolls the loop over the three indices) decides accept/reject, NumINF and NumHops " +
+			"for every zero pattern with sums on both sides of the bound (250 cells). NOT decided: that " +
+			"reversing twice restores the path, " +
 			"raw/decoded agreement (value round trips over 2^26 headers), non-emptiness of the whole path.",
 		Run: runC19,
 	})
@@ -45,7 +50,58 @@ func init() {
 			Old: `	s.PathMeta.CurrINF = s.infIndexForHF(s.PathMeta.CurrHF)
 	return nil`, New: `	return nil`, Expect: "P1-incpath"},
 		Mutant{Prop: "C19", Name: "gap-between-segments-accepted", File: bf,
-			Old: `		if s.PathMeta.SegLen[i] == 0 && s.NumINF > 0 {`, New: `		if s.PathMeta.SegLen[i] == 0 && s.NumINF > 1 {`, Expect: "D1-decode-shape"},
+			// (NumINF > 1 would be an EQUIVALENT mutant: NumINF == 1 only occurs at index 0,
+			// after which nothing is visited; the first, shape-matching version of D1
+			// reported it all the same - one reason D1 became a table.)
+			Old: `		if s.PathMeta.SegLen[i] == 0 && s.NumINF > 0 {`, New: `		if s.PathMeta.SegLen[i] == 0 && s.NumINF > 2 {`, Expect: "D1-decode-shape"},
+		Mutant{Prop: "C19", Name: "forward-loop-with-hole-in-the-middle", File: bf,
+			Old: `	for i := 2; i >= 0; i-- {
+		if s.PathMeta.SegLen[i] == 0 && s.NumINF > 0 {
+			return serrors.New(
+				fmt.Sprintf("Meta.SegLen[%d] == 0, but Meta.SegLen[%d] > 0", i, s.NumINF-1))
+		}
+		if s.PathMeta.SegLen[i] > 0 && s.NumINF == 0 {
+			s.NumINF = i + 1
+		}
+		s.NumHops += int(s.PathMeta.SegLen[i])
+	}`, New: `	for i := 0; i < 3; i++ {
+		if s.PathMeta.SegLen[i] == 0 {
+			continue
+		}
+		if i > 0 && s.NumINF == 0 {
+			return serrors.New(
+				fmt.Sprintf("Meta.SegLen[%d] == 0, but Meta.SegLen[%d] > 0", i-1, i))
+		}
+		s.NumINF = i + 1
+		s.NumHops += int(s.PathMeta.SegLen[i])
+	}`, Expect: "D1-decode-shape"},
+		Mutant{Prop: "C19", Name: "benign-forward-range-loop", File: bf, Benign: true,
+			Old: `	for i := 2; i >= 0; i-- {
+		if s.PathMeta.SegLen[i] == 0 && s.NumINF > 0 {
+			return serrors.New(
+				fmt.Sprintf("Meta.SegLen[%d] == 0, but Meta.SegLen[%d] > 0", i, s.NumINF-1))
+		}
+		if s.PathMeta.SegLen[i] > 0 && s.NumINF == 0 {
+			s.NumINF = i + 1
+		}
+		s.NumHops += int(s.PathMeta.SegLen[i])
+	}`, New: `	for i, l := range s.PathMeta.SegLen {
+		if l == 0 {
+			continue
+		}
+		if i > s.NumINF {
+			return serrors.New(
+				fmt.Sprintf("Meta.SegLen[%d] == 0, but Meta.SegLen[%d] > 0", s.NumINF, i))
+		}
+		s.NumINF = i + 1
+		s.NumHops += int(l)
+	}`},
+		Mutant{Prop: "C19", Name: "benign-unrolled-hop-sum", File: bf, Benign: true,
+			Old: `		s.NumHops += int(s.PathMeta.SegLen[i])
+	}
+`, New: `	}
+	s.NumHops = int(s.PathMeta.SegLen[0]) + int(s.PathMeta.SegLen[1]) + int(s.PathMeta.SegLen[2])
+`},
 		Mutant{Prop: "C19", Name: "too-many-hops-accepted", File: bf,
 			Old: `	if s.NumHops > MaxHops {`, New: `	if s.NumHops > MaxHops+1 {`, Expect: "D1-decode-shape"},
 	)
@@ -169,61 +225,144 @@ func runC19(c *Ctx) {
 		maxHops := strings.SplitN(c.Const("pkg/slayers/path/scion.MaxHops"), ":", 2)[0]
 		c.Check(maxHops == "64", rule, "MaxHops", 0, "MaxHops = "+maxHops+" (CurrHF has 6 bits)")
 		e.Require(rule, "success", nil, e.SuccessReturns(),
-			e.CallGuard(PassErrNil, "(*pkg/slayers/path/scion.MetaHdr).DecodeFromBytes"),
-			e.AtomGuard("NumHops<=MaxHops", "-lt("+maxHops+", recv.NumHops)"),
-			e.AtomGuard("all-three-lengths-visited", "+lt(phi(*), 0)"))
-		seg := "recv.PathMeta.SegLen[phi(*)]"
-		e.FailStop(rule, "contiguous", 1, Or("length non-zero or nothing above it",
-			e.AtomGuard("len!=0", "-eq("+seg+", 0)"), e.AtomGuard("nothing-above", "-lt(0, recv.NumINF)")))
-		// NumINF = i+1 exactly at the first (highest) non-zero length
-		var setINF []ssa.Instruction
-		okVal := true
-		for _, st := range v.Stores("recv.NumINF") {
-			if st.Val == "0" {
-				continue
-			}
-			setINF = append(setINF, st.In)
-			okVal = okVal && wild("(phi(*) + 1)", st.Val)
+			e.CallGuard(PassErrNil, "(*pkg/slayers/path/scion.MetaHdr).DecodeFromBytes"))
+		// (a) the function looks at the three lengths only through "is it zero" and
+		// through their sum, which in turn is only compared with MaxHops: its
+		// behaviour is a function of (zero pattern, sum <= MaxHops) ...
+		depOK, depWhy := c19LengthDependence(v)
+		c.Check(depOK, rule, v.Name()+":lengths-used-as-zero-test-and-sum", v.Fn.Pos(), depWhy)
+		// (b) ... which is decided for every class by abstract evaluation (the loop
+		// over the three indices is unrolled by constant propagation, whatever its
+		// direction or form); representatives 0,1,2,62,63 cover every zero pattern
+		// with sums on both sides of the bound (6-bit lengths: at most 63 each).
+		segDom := []string{"0", "1", "2", "62", "63"}
+		RunTable(c, &TableSpec{
+			Rule: rule, Fn: v.Fn, NoInline: []string{"*"},
+			Effects: []string{"recv.NumINF", "recv.NumHops"},
+			Atoms: []Atom{
+				{Name: "metaErr", Pats: []string{"((*pkg/slayers/path/scion.MetaHdr).DecodeFromBytes(*) != nil)"}, Domain: bd},
+				{Name: "s0", Pats: []string{"recv.PathMeta.SegLen[0]"}, Domain: segDom},
+				{Name: "s1", Pats: []string{"recv.PathMeta.SegLen[1]"}, Domain: segDom},
+				{Name: "s2", Pats: []string{"recv.PathMeta.SegLen[2]"}, Domain: segDom},
+			},
+			Oracle: func(a map[string]string) map[string]string {
+				if a["metaErr"] == "true" {
+					return map[string]string{"ret": "sym:*"}
+				}
+				var l [3]int
+				fmt.Sscan(a["s0"], &l[0])
+				fmt.Sscan(a["s1"], &l[1])
+				fmt.Sscan(a["s2"], &l[2])
+				n, sum, gap := 0, 0, false
+				for i := 0; i < 3; i++ {
+					sum += l[i]
+					if l[i] != 0 {
+						if n != i {
+							gap = true // a zero length below a non-zero one
+						}
+						n = i + 1
+					}
+				}
+				if gap || sum > 64 {
+					return map[string]string{"ret": "sym:*"}
+				}
+				return map[string]string{"ret": "nil", "recv.NumINF": fmt.Sprint(n), "recv.NumHops": fmt.Sprint(sum)}
+			},
+		})
+	}
+	_ = fmt.Sprint
+}
+
+// c19LengthDependence: in Base.DecodeFromBytes every value loaded from
+// PathMeta.SegLen[i] is used only in comparisons with the constant 0 or (after
+// conversion) as an addend of a sum that is stored to NumHops; every value of
+// NumHops is used only as an addend or compared with the constant MaxHops.
+// (Values boxed for an error message do not influence the outcome.)
+func c19LengthDependence(v *FnView) (bool, string) {
+	S := v.S
+	seen := map[string]bool{}
+	var bad []string
+	nLen, nSum := 0, 0
+	var walk func(x ssa.Value, kind string)
+	walk = func(x ssa.Value, kind string) {
+		key := kind + "/" + x.Name()
+		if seen[key] || x.Referrers() == nil {
+			return
 		}
-		c.Check(okVal && len(setINF) == 1, rule, v.Name()+":NumINF-value", v.Fn.Pos(), "NumINF = index + 1")
-		e.Require(rule, "NumINF", nil, setINF, e.AtomGuard("len>0", "+lt(0, "+seg+")"), e.AtomGuard("first-non-zero", "+eq(recv.NumINF, 0)"))
-		// NumHops accumulates each length once, from 0
-		okSum := 0
-		for _, st := range v.Stores("recv.NumHops") {
-			if st.Val == "0" {
-				okSum++
-				continue
-			}
-			if wild("(int("+seg+") + recv.NumHops)", st.Val) || wild("(recv.NumHops + int("+seg+"))", st.Val) {
-				okSum++
-			} else {
-				okSum = -10
-			}
-		}
-		c.Check(okSum == 2, rule, v.Name()+":NumHops-sum", v.Fn.Pos(), "NumHops starts at 0 and adds int(SegLen[i]) once per index")
-		// the index runs 2, 1, 0
-		okIdx := false
-		for _, b := range v.Fn.Blocks {
-			for _, in := range b.Instrs {
-				phi, ok := in.(*ssa.Phi)
-				if !ok || !cyclic(b) {
+		seen[key] = true
+		for _, r := range *x.Referrers() {
+			switch y := r.(type) {
+			case *ssa.DebugRef, *ssa.MakeInterface:
+			case *ssa.Convert:
+				walk(y, kind)
+			case *ssa.ChangeType:
+				walk(y, kind)
+			case *ssa.Phi:
+				walk(y, kind)
+			case *ssa.BinOp:
+				other := y.Y
+				if other == x {
+					other = y.X
+				}
+				switch y.Op {
+				case token.EQL, token.NEQ, token.LSS, token.LEQ, token.GTR, token.GEQ:
+					k, isK := foldInt(other)
+					if (kind == "len" && isK && k == 0) || (kind == "sum" && isK && k == 64) {
+						continue
+					}
+					bad = append(bad, fmt.Sprintf("%s value compared as %s", kind, S.Sym(y)))
+				case token.ADD:
+					walk(y, "sum")
+				default:
+					bad = append(bad, fmt.Sprintf("%s value used in %s", kind, S.Sym(y)))
+				}
+			case *ssa.Store:
+				if y.Val == x && S.Sym(y.Addr) == "recv.NumHops" {
 					continue
 				}
-				two, dec := false, false
-				for _, ed := range phi.Edges {
-					if k, isK := foldInt(ed); isK && k == 2 {
-						two = true
-					}
-					if bo, isB := ed.(*ssa.BinOp); isB && bo.Op.String() == "-" && bo.X == ssa.Value(phi) {
-						if k, isK := foldInt(bo.Y); isK && k == 1 {
-							dec = true
+				bad = append(bad, fmt.Sprintf("%s value stored to %s", kind, S.Sym(y.Addr)))
+			default:
+				bad = append(bad, fmt.Sprintf("%s value used by %T", kind, r))
+			}
+		}
+	}
+	for _, b := range v.Fn.Blocks {
+		for _, in := range b.Instrs {
+			u, ok := in.(*ssa.UnOp)
+			if !ok || u.Op != token.MUL {
+				continue
+			}
+			if ia, isIA := u.X.(*ssa.IndexAddr); isIA && S.Sym(ia.X) == "recv.PathMeta.SegLen" {
+				nLen++
+				walk(u, "len")
+				continue
+			}
+			switch S.Sym(u.X) {
+			case "recv.NumHops":
+				nSum++
+				walk(u, "sum")
+			case "recv.PathMeta.SegLen":
+				// the array loaded as a value (range over it): only indexed
+				if u.Referrers() != nil {
+					for _, r := range *u.Referrers() {
+						switch y := r.(type) {
+						case *ssa.Index:
+							nLen++
+							walk(y, "len")
+						case *ssa.DebugRef:
+						default:
+							bad = append(bad, fmt.Sprintf("the SegLen array value is used by %T", r))
 						}
 					}
 				}
-				okIdx = okIdx || (two && dec)
 			}
 		}
-		c.Check(okIdx, rule, v.Name()+":index-2-down-to-0", v.Fn.Pos(), "the loop visits SegLen[2], SegLen[1], SegLen[0]")
 	}
-	_ = fmt.Sprint
+	if nLen == 0 || nSum == 0 {
+		bad = append(bad, fmt.Sprintf("%d loads of SegLen elements, %d loads of NumHops", nLen, nSum))
+	}
+	if len(bad) > 0 {
+		return false, strings.Join(bad, "; ")
+	}
+	return true, fmt.Sprintf("%d loads of SegLen elements feed only zero tests and the hop sum; %d loads of NumHops feed only the sum and the MaxHops comparison", nLen, nSum)
 }
